@@ -118,24 +118,39 @@ Proof.
 Qed.
 
 (* v1, several files: exactly one entry per listed file, in list order, at root/<path elements>, with the recorded
-   length -- nothing else is consulted *)
-Definition v1_item (e : list bytes * Z) : value :=
-  BDict [(ck_length, BInt (snd e)); (ck_path, BList (map BStr (fst e)))].
+   length and the recorded "attr" (if any) -- nothing else is consulted.  An entry is (path elements, length, attr). *)
+Definition v1_entry := (list bytes * Z * option bytes)%type.
+Definition ve_path (e : v1_entry) : list bytes := fst (fst e).
+Definition ve_length (e : v1_entry) : Z := snd (fst e).
+Definition ve_attr (e : v1_entry) : option bytes := snd e.
+Definition v1_item (e : v1_entry) : value :=
+  BDict ((match ve_attr e with Some a => [(ck_attr, BStr a)] | None => [] end) ++
+         [(ck_length, BInt (ve_length e)); (ck_path, BList (map BStr (ve_path e)))]).
 
 Lemma comps_of_strs cs : comps_of (map BStr cs) = Some cs.
 Proof. induction cs as [|c cs IH]; cbn; [reflexivity|]. now rewrite IH. Qed.
 
-Theorem v1_files_exact : forall root (entries : list (list bytes * Z)),
-  Forall (fun e => fst e <> []) entries ->
-  v1_files root (map v1_item entries) = Some (map (fun e => mk_fi (root ++ fst e) (snd e) None) entries).
+Theorem v1_files_exact : forall root (entries : list v1_entry),
+  Forall (fun e => ve_path e <> []) entries ->
+  v1_files root (map v1_item entries) =
+  Some (map (fun e => mk_fi (root ++ ve_path e) (ve_length e) None (ve_attr e)) entries).
 Proof.
-  intros root entries F. induction F as [|[cs n] entries NE F IH]; [reflexivity|].
-  cbn [map v1_files v1_item fst snd]. cbn [lookup].
-  change (bytes_eqb ck_length ck_length) with true. cbv iota.
-  change (bytes_eqb ck_length ck_path) with false. change (bytes_eqb ck_path ck_path) with true. cbv iota.
-  rewrite comps_of_strs. cbn [fst] in NE. destruct cs as [|c cs]; [contradiction|].
-  rewrite IH. reflexivity.
+  intros root entries F. induction F as [|[[cs n] a] entries NE F IH]; [reflexivity|].
+  cbn [map v1_files]. unfold v1_item at 1, attr_of. cbn [ve_path ve_length ve_attr fst snd] in *.
+  destruct a as [a|]; cbn [app lookup];
+    change (bytes_eqb ck_attr ck_length) with false; change (bytes_eqb ck_attr ck_path) with false;
+    change (bytes_eqb ck_attr ck_attr) with true; change (bytes_eqb ck_length ck_attr) with false;
+    change (bytes_eqb ck_path ck_attr) with false;
+    change (bytes_eqb ck_length ck_length) with true; change (bytes_eqb ck_length ck_path) with false;
+    change (bytes_eqb ck_path ck_path) with true; cbv iota;
+    rewrite comps_of_strs; (destruct cs as [|c cs]; [contradiction|]); rewrite IH; reflexivity.
 Qed.
+
+(* a padding entry is recognised by its attr alone *)
+Lemma fi_padding_p path n r : fi_padding (mk_fi path n r (Some ["p"%char])) = true.
+Proof. reflexivity. Qed.
+Lemma fi_padding_none path n r : fi_padding (mk_fi path n r None) = false.
+Proof. reflexivity. Qed.
 
 (* D32: a specification-conformant single-file v2 metafile (no info.length; the tree is the one leaf named like
    the torrent) checked against a FILE: one entry, the root itself, with the recorded length and root hash *)
@@ -144,7 +159,7 @@ Theorem check_paths_v2_single_file_without_length : forall info name root n r,
   meta_version_of info = 2 ->
   lookup ck_file_tree info =
     Some (BDict [(name, BDict [(ck_empty, BDict [(ck_length, BInt n); (ck_pieces_root, BStr r)])])]) ->
-  check_paths info name root true = Some ([mk_fi root n (Some r)], n).
+  check_paths info name root true = Some ([mk_fi root n (Some r) None], n).
 Proof.
   intros info name root n r L MV T. unfold check_paths, single_length. rewrite L, MV, T.
   cbn. rewrite !bytes_eqb_refl'. cbn. rewrite ?bytes_eqb_refl'. reflexivity.
@@ -156,7 +171,7 @@ Theorem check_paths_v2_single_file_with_length : forall info name root n r f,
   meta_version_of info = 2 ->
   lookup ck_file_tree info =
     Some (BDict [(name, BDict [(ck_empty, BDict [(ck_length, BInt n); (ck_pieces_root, BStr r)])])]) ->
-  check_paths info name root f = Some ([mk_fi root n (Some r)], n).
+  check_paths info name root f = Some ([mk_fi root n (Some r) None], n).
 Proof.
   intros info name root n r f L MV T. unfold check_paths, single_length. rewrite L, MV, T.
   cbn. rewrite !bytes_eqb_refl'. cbn. reflexivity.
@@ -173,6 +188,7 @@ Proof.
     destruct (lookup ck_length item) as [[n| | |]|]; try discriminate.
     destruct (lookup ck_path item) as [[| |p|]|]; try discriminate.
     destruct (comps_of p) as [[|c cs]|]; try discriminate.
+    destruct (attr_of item) as [a|]; [|discriminate].
     destruct (v1_files root items) as [r|]; [|discriminate].
     intros [= <-]. constructor; [now exists (c :: cs) | now apply IH].
 Qed.
@@ -226,7 +242,7 @@ Theorem check_paths_under_root : forall info name root f fis total,
   check_paths info name root f = Some (fis, total) -> Forall (under root) fis.
 Proof.
   intros info name root f fis total. unfold check_paths.
-  assert (U : forall n r, Forall (under root) [mk_fi root n r]).
+  assert (U : forall n r, Forall (under root) [mk_fi root n r None]).
   { intros n r. constructor; [|constructor]. exists []. cbn. now rewrite app_nil_r. }
   destruct (single_length info name f) as [[[n|s|l|d]|]|]; try discriminate.
   - destruct (Nat.ltb 1 (meta_version_of info)).
@@ -266,6 +282,16 @@ Module CheckPathsExamples.
   Proof. split; vm_compute; reflexivity. Qed.
   Example ex_check_paths :
     check_paths ex_info (s "p") [s "w"; s "p"] false =
-      Some ([mk_fi [s "w"; s "p"; s "a"] 3 (Some (s "R")); mk_fi [s "w"; s "p"; s "d"; s "b"] 0 None], 3%Z).
+      Some ([mk_fi [s "w"; s "p"; s "a"] 3 (Some (s "R")) None; mk_fi [s "w"; s "p"; s "d"; s "b"] 0 None None], 3%Z).
   Proof. vm_compute. reflexivity. Qed.
+  (* v1 with a pad entry: its attr is recorded, and only it is a padding entry *)
+  Definition ex_info_v1 : dict :=
+    [(s "files", BList [BDict [(s "length", BInt 3); (s "path", BList [BStr (s "a")])];
+                        BDict [(s "attr", BStr (s "p")); (s "length", BInt 1); (s "path", BList [BStr (s ".pad"); BStr (s "1")])]]);
+     (s "name", BStr (s "p")); (s "piece length", BInt 4); (s "pieces", BStr [])].
+  Example ex_check_paths_v1 :
+    check_paths ex_info_v1 (s "p") [s "w"; s "p"] false =
+      Some ([mk_fi [s "w"; s "p"; s "a"] 3 None None; mk_fi [s "w"; s "p"; s ".pad"; s "1"] 1 None (Some (s "p"))], 4%Z) /\
+    option_map (fun r => map fi_padding (fst r)) (check_paths ex_info_v1 (s "p") [s "w"; s "p"] false) = Some [false; true].
+  Proof. split; vm_compute; reflexivity. Qed.
 End CheckPathsExamples.
